@@ -12,6 +12,11 @@ import (
 // is outside the modelled domain for this path (a fan-out in which only some
 // branches miss the field, or nested arrays).
 func KeyValues(doc bson.D, path string) (vals []interface{}, ok bool) {
+	if crossesNestedArray(doc, strings.Split(path, ".")) {
+		// an array that holds arrays along the path: MongoDB does not descend
+		// into the inner arrays, lungo does; outside the modelled domain
+		return nil, false
+	}
 	bs := Walk(doc, strings.Split(path, "."), false)
 	missing, present := 0, 0
 	for _, b := range bs {
